@@ -294,15 +294,17 @@ theorem args_peel (A1 A2 : List Bytes) (E1 E2 : List Bytes) (N1 N2 : List (Bytes
       have := ih A2 (fun x hx => a1 x (by simp [hx])) (fun x hx => a2 x (by simp [hx])) r
       exact ⟨by rw [eab, this.1], this.2⟩
 
-theorem encEnv_eq (r : CReq) : encEnv cCachedEnv r.env = (canonEnv r).flatMap envTok := by
+theorem encEnv_eq (allow : List Bytes) (r : CReq) : encEnv allow r.env = (canonEnvG allow r).flatMap envTok := by
   have : (fun kv : Bytes × Bytes => encArg kv.1 ++ [61] ++ encArg kv.2) = envTok := by
     funext kv; simp [envTok, eqB]
-  simp only [encEnv, canonEnv, this]
+  simp only [encEnv, canonEnvG, this]
 
-/-- C02 `encHash_components_inj` -/
-theorem encHash_components_inj : EncHashComponentsInj := by
-  intro r1 r2 w1 w2 htag h
-  simp only [encHash, htag, List.append_assoc] at h
+/-- injectivity of the common layout in its components, for any version constant and allow-list -/
+theorem encGen_components_inj (ver : Bytes) (allow : List Bytes) (r1 r2 : CReq) (w1 : WF r1) (w2 : WF r2)
+    (htag : langTagBytes r1.lang = langTagBytes r2.lang) (h : encGen ver allow r1 = encGen ver allow r2) :
+    r1.digest = r2.digest ∧ r1.plusplus = r2.plusplus ∧ r1.args = r2.args ∧ r1.extra = r2.extra ∧
+    canonEnvG allow r1 = canonEnvG allow r2 ∧ r1.pp = r2.pp := by
+  simp only [encGen, htag, List.append_assoc] at h
   -- digest (64 bytes)
   have hd : r1.digest = r2.digest := by
     have := congrArg (List.take 64) h
@@ -316,7 +318,7 @@ theorem encHash_components_inj : EncHashComponentsInj := by
   -- version and tag are equal constants
   rw [List.append_cancel_left_eq, List.append_cancel_left_eq] at h
   rw [encEnv_eq, encEnv_eq] at h
-  have := args_peel r1.args r2.args r1.extra r2.extra (canonEnv r1) (canonEnv r2) r1.pp r2.pp
+  have := args_peel r1.args r2.args r1.extra r2.extra (canonEnvG allow r1) (canonEnvG allow r2) r1.pp r2.pp
     (fun a ha => w1.args a ha) (fun a ha => w2.args a ha)
     (fun e he => w1.extra e he) (fun e he => w2.extra e he)
     (fun kv hkv => by
@@ -330,6 +332,11 @@ theorem encHash_components_inj : EncHashComponentsInj := by
     ⟨w1.ppNul, w1.ppHex⟩ ⟨w2.ppNul, w2.ppHex⟩
     (by simpa [tail3, List.append_assoc] using h)
   exact ⟨hd, hpp', this.1, this.2.1, this.2.2.1, this.2.2.2⟩
+
+/-- C02 `encHash_components_inj` -/
+theorem encHash_components_inj : EncHashComponentsInj := by
+  intro r1 r2 w1 w2 htag h
+  exact encGen_components_inj cCacheVersion cCachedEnv r1 r2 w1 w2 htag h
 
 #print axioms encHash_components_inj
 
